@@ -51,6 +51,7 @@ def check_code_under_test():
 # --------------------------------------------------------------------------------------------
 def make_scenarios(h, prop, tier, verif_seed, index):
     s = Streams(run_seed(verif_seed, prop, index))
+    s.index = index  # lets a harness spread a finite table over the runs of a batch
     sc = h.gen(s, tier)
     sc["_run"] = {"index": index, "seed": s.seed, "variant": 0}
     out = [sc]
